@@ -258,6 +258,10 @@ const CORPUS: &[(&str, &str, &str, &str)] = &[
     ("time-suffix-chain-er", "phonetic", "01000000001", "kererererererererererererererererererererererer␛"),
     ("time-suffix-chain-mixed", "phonetic", "11000000001", "deshgulokeitaragulokeigulotaderkeoeierer␛"),
     ("time-repeated-vowels", "phonetic", "01000000001", "aaaaaaaaaaaaaaaaaaaaaaaaaaaaaaaaaaaaaaaaoooooooooooooooooooo␛"),
+    // rank arithmetic far from the dictionary: a dictionary hit 26 and more edits away from what was typed (both methods)
+    ("far-hit-repeated-o", "phonetic", "01000000001", "oooooooooooooooooooooooooooooooooooooooooooooooooooooooo␛sooooooooooooooooooooooooooooooooooooooooooooooooooo␛"),
+    ("far-hit-marks-phonetic", "phonetic", "11000000001", "k--------------------------------m␛"),
+    ("far-hit-marks-fixed", "probhat", "10100000000", "k---------------------------m␛k^^^^^^^^^^^^^^^^^^^^^^^^^^^^m␛"),
     ("seed-C03-1-punctuation-after-word", "phonetic", "00000000001", "k⏎.␛(a⌫␛"),
     ("seed-C06-1-hasanta-vowel-then-backspace", "probhat", "10110000000", "/u⌫;)␛/u⌫k␛"),
 ];
